@@ -16,5 +16,7 @@ Bodies == {<<O>>} \cup {<<c>> : c \in Calls} \cup {<<c, O>> : c \in Calls}
 Init == eps = <<>> /\ k = 1
 Next == k <= 4 /\ \E b \in Bodies : eps' = Append(eps, [app |-> Keys[k][1], ep |-> Keys[k][2], stmts |-> b]) /\ k' = k + 1
 Spec == Init /\ [][Next]_<<eps, k>>
-DesignSatisfiesClauses == k = 5 => \A j \in 1..4 : IntendedClean(eps, Keys[j][1], Keys[j][2])
+\* with no blackbox and with every single other endpoint as a blackbox
+DesignSatisfiesClauses == k = 5 => \A j \in 1..4 : \A cut \in {{}} \cup {{Keys[q]} : q \in (1..4) \ {j}} :
+                                     IntendedClean(eps, Keys[j][1], Keys[j][2], cut)
 =============================================================================
